@@ -87,6 +87,9 @@ func (ex *Exec) callFn(fr *Frame, st *State, pc *Term, fn *ssa.Function, args []
 		return ex.abstractCall(fn, args), pc
 	}
 	if ex.V.isSpecFn(fn) {
+		if isSelfRecursive(fn) {
+			return ex.recCall(fr, st, pc, fn, args), pc
+		}
 		return ex.inline(fr, st, pc, fn, args, binds, true, pos), pc
 	}
 	if c != nil && !c.Inline && !(fr.top && false) {
